@@ -20,8 +20,15 @@ func LRHuntGen() *rapid.Generator[*Grammar] {
 		for i := range names {
 			names[i] = fmt.Sprintf("R%d", i+1)
 		}
-		if U(t, 4, "altnames") == 0 {
+		switch U(t, 4, "altnames") {
+		case 0:
 			pool := []string{"Z", "M", "A", "B", "Y", "K", "Q"}
+			for i := range names {
+				names[i] = pool[i]
+			}
+		case 1:
+			// names of different lengths whose length order and alphabetical order disagree
+			pool := []string{"Expr", "Va", "Sum", "P", "Term10", "B", "Zz"}
 			for i := range names {
 				names[i] = pool[i]
 			}
@@ -186,13 +193,33 @@ func NullableOver(g *Grammar) map[string]bool {
 // looking through lookahead predicates and recovery expressions (an over-approximation:
 // a grammar without a cycle in this graph can never re-enter a rule at the offset at which
 // it is already active).
-func FirstOver(g *Grammar) map[string]map[string]bool { return firstGraph(g, true) }
+func FirstOver(g *Grammar) map[string]map[string]bool { return firstGraph(g, true, false) }
+
+// FirstShortCircuit models the recorded finding KF-C07-SHORTCIRCUIT: behind the first
+// nullable alternative of a choice (and in the recovery expression of an operator whose
+// guarded expression is nullable) pigeon never computes nullable flags, so inside those
+// regions a sequence is only followed past elements that are nullable by their very kind
+// (x?, x*, &x, !x, code/state blocks, throws, ""). A cycle in this graph is one pigeon is
+// expected to find; a cycle that only exists in FirstOver falls into the finding.
+func FirstShortCircuit(g *Grammar) map[string]map[string]bool { return firstGraph(g, false, true) }
 
 // FirstOverNoThrow is FirstOver without the edges from a throw to the recovery expressions
 // of its label.
-func FirstOverNoThrow(g *Grammar) map[string]map[string]bool { return firstGraph(g, false) }
+func FirstOverNoThrow(g *Grammar) map[string]map[string]bool { return firstGraph(g, false, false) }
 
-func firstGraph(g *Grammar, throwEdges bool) map[string]map[string]bool {
+func intrinsicNullable(e *Expr) bool {
+	switch e.K {
+	case KLit:
+		return len(e.Val) == 0
+	case KOpt, KStar, KAnd, KNot, KAndCode, KNotCode, KState, KThrow:
+		return true
+	case KLabel:
+		return intrinsicNullable(e.Sub[0])
+	}
+	return false
+}
+
+func firstGraph(g *Grammar, throwEdges, shortCircuit bool) map[string]map[string]bool {
 	null := NullableOver(g)
 	var nul func(e *Expr) bool
 	nul = func(e *Expr) bool {
@@ -236,41 +263,51 @@ func firstGraph(g *Grammar, throwEdges bool) map[string]map[string]bool {
 		})
 	}
 	graph := map[string]map[string]bool{}
-	var first func(e *Expr, out map[string]bool, depth int)
-	first = func(e *Expr, out map[string]bool, depth int) {
+	var first func(e *Expr, out map[string]bool, depth int, unvisited bool)
+	first = func(e *Expr, out map[string]bool, depth int, unvisited bool) {
 		if depth > 50 {
 			return
+		}
+		isNull := func(x *Expr) bool {
+			if unvisited {
+				return intrinsicNullable(x)
+			}
+			return nul(x)
 		}
 		switch e.K {
 		case KRef:
 			out[e.Name] = true
 		case KSeq:
 			for _, s := range e.Sub {
-				first(s, out, depth+1)
-				if !nul(s) {
+				first(s, out, depth+1, unvisited)
+				if !isNull(s) {
 					break
 				}
 			}
 		case KChoice:
+			un := unvisited
 			for _, s := range e.Sub {
-				first(s, out, depth+1)
+				first(s, out, depth+1, un)
+				if shortCircuit && nul(s) {
+					un = true
+				}
 			}
 		case KOpt, KStar, KPlus, KAnd, KNot, KLabel, KAction:
-			first(e.Sub[0], out, depth+1)
+			first(e.Sub[0], out, depth+1, unvisited)
 		case KRecover:
-			first(e.Sub[0], out, depth+1)
-			first(e.Sub[1], out, depth+1)
+			first(e.Sub[0], out, depth+1, unvisited)
+			first(e.Sub[1], out, depth+1, unvisited || (shortCircuit && nul(e.Sub[0])))
 		case KThrow:
 			if throwEdges {
 				for _, rec := range recs[e.Name] {
-					first(rec, out, depth+1)
+					first(rec, out, depth+1, unvisited)
 				}
 			}
 		}
 	}
 	for _, r := range g.Rules {
 		out := map[string]bool{}
-		first(r.Expr, out, 0)
+		first(r.Expr, out, 0, false)
 		graph[r.Name] = out
 	}
 	return graph
